@@ -1225,46 +1225,64 @@ func (s *sharedEntryAttributes) validateMandatory(ctx context.Context, resultCha
 		switch s.schema.GetSchema().(type) {
 		case *sdcpb.SchemaElem_Container:
 			for _, c := range s.schema.GetContainer().GetMandatoryChildrenConfig() {
-				s.validateMandatoryWithKeys(ctx, len(s.GetSchema().GetContainer().GetKeys()), c.Name, resultChan)
+				attributes := []string{c.Name}
+				// a mandatory choice is listed by its name: it is satisfied by any member of any of its cases
+				if choice, isChoice := s.schema.GetContainer().GetChoiceInfo().GetChoice()[c.Name]; isChoice {
+					attributes = []string{}
+					for _, choiceCase := range choice.GetCase() {
+						attributes = append(attributes, choiceCase.GetElements()...)
+					}
+				}
+				s.validateMandatoryWithKeys(ctx, len(s.GetSchema().GetContainer().GetKeys()), c.Name, attributes, resultChan)
 			}
 		}
 	}
 }
 
-func (s *sharedEntryAttributes) validateMandatoryWithKeys(ctx context.Context, level int, attribute string, resultChan chan<- *types.ValidationResultEntry) {
+// validateMandatoryWithKeys checks the mandatory child name below the entries level key levels down. The child is
+// there if one of the given attributes is (the child itself, or for a mandatory choice the members of its cases).
+func (s *sharedEntryAttributes) validateMandatoryWithKeys(ctx context.Context, level int, name string, attributes []string, resultChan chan<- *types.ValidationResultEntry) {
 	if level == 0 {
 		// a list entry that is given up as a whole has no mandatory childs to miss
 		if !s.remainsExplicitly() {
 			return
 		}
-		// first check if the mandatory value is set via the intent, e.g. part of the tree already
-		v, existsInTree := s.filterActiveChoiceCaseChilds()[attribute]
-
-		// if not the path exists in the tree and is not to be deleted, then lookup in the paths index of the store
-		// and see if such path exists, if not raise the error
-		if !(existsInTree && v.remainsToExist()) {
+		exists := false
+		var err error
+		for _, attribute := range attributes {
+			// first check if the mandatory value is set via the intent, e.g. part of the tree already
+			v, existsInTree := s.filterActiveChoiceCaseChilds()[attribute]
+			if existsInTree && v.remainsToExist() {
+				exists = true
+				break
+			}
+			// if not the path exists in the tree and is not to be deleted, then lookup in the paths index of the store
+			// and see if such path exists, if not raise the error.
 			// the intent that is being set is in the tree with its new content: what the intended store still holds
 			// of its former version does not count
-			exists, err := s.treeContext.cacheClient.IntendedPathExists(ctx, append(s.Path(), attribute))
+			exists, err = s.treeContext.cacheClient.IntendedPathExists(ctx, append(s.Path(), attribute))
 			if exists && err == nil {
 				exists = s.treeContext.cacheClient.GetBranchesHighesPrecedence(ctx, append(s.Path(), attribute), CacheUpdateFilterExcludeOwners(s.treeContext.IsActualOwner)) != math.MaxInt32
 			}
-			owner := "unknown"
-			if s.leafVariants.Length() > 0 {
-				s.leafVariants.GetHighestPrecedence(false, true).Owner()
+			if exists || err != nil {
+				break
 			}
-			if err != nil {
-				resultChan <- types.NewValidationResultEntry(owner, fmt.Errorf("error validating mandatory childs %s: %v", s.Path(), err), types.ValidationResultEntryTypeError)
-			}
-			if !exists {
-				resultChan <- types.NewValidationResultEntry(owner, fmt.Errorf("error mandatory child %s does not exist, path: %s", attribute, s.Path()), types.ValidationResultEntryTypeError)
-			}
+		}
+		owner := "unknown"
+		if s.leafVariants.Length() > 0 {
+			s.leafVariants.GetHighestPrecedence(false, true).Owner()
+		}
+		if err != nil {
+			resultChan <- types.NewValidationResultEntry(owner, fmt.Errorf("error validating mandatory childs %s: %v", s.Path(), err), types.ValidationResultEntryTypeError)
+		}
+		if !exists {
+			resultChan <- types.NewValidationResultEntry(owner, fmt.Errorf("error mandatory child %s does not exist, path: %s", name, s.Path()), types.ValidationResultEntryTypeError)
 		}
 		return
 	}
 
 	for _, c := range s.filterActiveChoiceCaseChilds() {
-		c.validateMandatoryWithKeys(ctx, level-1, attribute, resultChan)
+		c.validateMandatoryWithKeys(ctx, level-1, name, attributes, resultChan)
 	}
 
 }
